@@ -7,9 +7,23 @@
                reader accepts for EVERY Go string (sbody_quote_any; invalid UTF-8 becomes U+FFFD).
    The invariant holds of every parsed document and of every value of a decoded patch, and is kept
    by every operation of the v5 patch engine for ARBITRARY operations, paths and options
-   (step_ntok, apply_from_ntok: a separate invariant in the style of Totality.v).
-   The nesting depth of the result is a hypothesis of the output theorems (adds can grow the
-   nesting beyond what the reader accepts); it holds when the patch is empty. *)
+   (step_ntok, apply_from_ntok: a separate invariant in the style of Totality.v, generic in the
+   predicate on raw messages: Section RawInv).
+   The nesting depth of Apply's result is a hypothesis of its output theorems (a copy / add can nest
+   the result deeper than the reader accepts: ex_result_too_deep); it holds when the patch is empty.
+   MergePatch / MergeMergePatches / CreateMergePatch (v5) and the legacy MergePatch /
+   MergeMergePatches need no such hypothesis: a second invariant indexed by the nesting still
+   allowed (Section MergeInv: nlv) is kept by pruneNulls and merge, so the result is nested no
+   deeper than the deeper input.
+
+   sections:  1 Json.tdepth = Text.tdepth          2 sbody (quote esc s) for every s
+              3 escaping, either setting            4 Section RawInv (nall, walk_all, find_all, step_all)
+              5 ntok, tok_render, api_decode_tok    6 Apply: result_tree, api_apply_output_general
+              7 Apply in the simulation's domain: api_apply_output_sim
+              8 Section MergeInv, api_merge_output(_general), api_mergemerge_output
+              9 CreateMergePatch: api_create_output(_general)      10 concrete checks
+             11 legacy merge: api_merge4_output_general, api_merge4_output_bytes, api_mergemerge4_output_bytes
+             12 Compact / Indent of the codec: compact_output_value, indent_output_value *)
 From Coq Require Import Lia.
 From JP Require Import Bytes Json Text Strings Den Pointer Rfc6902 ImplV5 DecodeFacts JsonFacts Abs EqualFacts ParseFacts
                        ImplFacts RefFacts ApplyFacts Codec StrInv PrintParse Depth ApplySim Totality.
@@ -1490,3 +1504,355 @@ Qed.
 
 Print Assumptions api_create_output_general.
 Print Assumptions api_create_output.
+
+(* ================================================================================================ *)
+(* 10. checks on concrete inputs                                                                     *)
+(* ================================================================================================ *)
+Definition ex_opts (esc : bool) : opts := mkOpts false 0 false false esc [] None.
+Definition ex_patch : bytes :=
+  B "[{""op"":""add"",""path"":""/k<"",""value"":{""n"":[1,-2.5e+3,{}],""s"":""a&b""}},{""op"":""copy"",""from"":""/k<"",""path"":""/c""},{""op"":""test"",""path"":""/c/n/0"",""value"":1},{""op"":""move"",""from"":""/x>"",""path"":""/c/n/-""},{""op"":""remove"",""path"":""/c/s""}]".
+Definition ex_doc : bytes := B " {""x>"":""<"", ""z"": [ ] } ".
+
+(* add, copy, test, move, remove; EscapeHTML on and off; no indent, tab, two spaces: every output is
+   accepted by the scanner, ApplyIndent's output is Indent of Apply's, all read back as one value *)
+Example ex_apply_outputs :
+  match api_decode ex_patch with
+  | Some p =>
+      match api_apply (ex_opts true) [] p ex_doc, api_apply (ex_opts true) [x09] p ex_doc,
+            api_apply (ex_opts false) (B "  ") p ex_doc with
+      | ROut a, ROut b, ROut c =>
+          indent_go [x09] a = Some b /\ valid_gen a = true /\ valid_gen b = true /\ valid_gen c = true /\
+          parse a <> None /\ option_map den (parse a) = option_map den (parse b) /\
+          option_map den (parse a) = option_map den (parse c) /\ a <> c
+      | _, _, _ => False
+      end
+  | None => False
+  end.
+Proof. vm_compute. repeat split; try reflexivity; discriminate. Qed.
+
+Example ex_merge_output :
+  match api_merge false (B "{""a"":{""x"":1,""y"":[1,{""q"":null}]},""k"":""s<"",""n"":1e400}")
+                        (B " {""a"":{""x"":null,""z"":{""u"":null,""w"":[null]}},""n"":null,""m"":{""d"":null}} ") with
+  | MOut out => valid_gen out = true /\
+                option_map den (parse out) =
+                option_map den (parse (B "{""a"":{""y"":[1,{""q"":null}],""z"":{""w"":[null]}},""k"":""s<"",""m"":{}}"))
+  | _ => False
+  end.
+Proof. vm_compute. split; reflexivity. Qed.
+
+Example ex_create_output :
+  match api_create (B "{""a"":1,""b"":{""c"":[1,2],""d"":""<""}}") (B "{""a"":1.0,""b"":{""c"":[1,2],""d"":"">""},""e"":null}") with
+  | MOut out => valid_gen out = true /\
+                option_map den (parse out) = option_map den (parse (B "{""a"":1.0,""b"":{""d"":"">""},""e"":null}"))
+  | _ => False
+  end.
+Proof. vm_compute. split; reflexivity. Qed.
+
+(* member names that are not valid UTF-8 are still written as bodies the reader accepts *)
+Example ex_quote_invalid_utf8 : body_okb (quote false [xff; x41; xe2; x80]) = true /\ body_okb (quote true [xc0; x3c]) = true.
+Proof. vm_compute. split; reflexivity. Qed.
+
+(* the hypothesis on the nesting of the result is needed: a document nested 10000 deep (accepted),
+   a decoded copy that puts its deepest part one level further down: Apply succeeds and writes a text
+   nested 10001 deep, which neither the reader nor the scanner accepts *)
+Definition ex_deep_doc : bytes := B "{""a"":" ++ repeat x5b 9999 ++ repeat x5d 9999 ++ B ",""b"":[]}".
+
+Example ex_result_too_deep :
+  match api_decode (B "[{""op"":""copy"",""from"":""/a"",""path"":""/b/-""}]") with
+  | Some p =>
+      match api_apply (ex_opts true) [] p ex_deep_doc with
+      | ROut out => parse out = None /\ parse ex_deep_doc <> None
+      | _ => False
+      end
+  | None => False
+  end.
+Proof. vm_compute. split; [reflexivity | discriminate]. Qed.
+
+(* ================================================================================================ *)
+(* 11. the legacy root package: MergePatch / MergeMergePatches (render4: names sorted, escaped)       *)
+(* ================================================================================================ *)
+From JP Require Import ImplV4 V4MergeFacts.
+
+Section MergeInv4.
+  Variable P : N -> tjson -> Prop.
+  Variable Pk : bytes -> Prop.
+  Variable okl : N -> Prop.
+  Hypothesis P_obj : forall d ms, P d (TObj ms) ->
+    okl d /\ Forall (fun kv => Pk (unquote (fst kv)) /\ P (d - 1) (snd kv)) ms.
+
+  Local Notation nlv' := (nlv P Pk okl).
+  Local Notation mlv' := (mlv P Pk okl).
+
+  Lemma obj_of_lv d ms : P d (TObj ms) -> okl d /\ mlv' (d - 1) (obj_of ms).
+  Proof.
+    intro H. pose proof (doc_of_lv P Pk okl P_obj d ms H) as D. apply nlv_doc in D as [O [_ M]]. split; [exact O | exact M].
+  Qed.
+
+  Lemma prune4_go_lv d ms : forall acc,
+    mlv' d acc -> Forall (fun kv => Pk (unquote (fst kv)) /\ nlv' d (prune4_t (snd kv))) ms -> mlv' d (prune4_go ms acc).
+  Proof.
+    induction ms as [|[k v] ms IH]; intros acc Ha Hf; [exact Ha|].
+    inversion Hf as [|? ? [H1 H2] Hr]; subst. cbn [fst snd] in *.
+    assert (Upd : mlv' d (prune4_go ms (aset (unquote k) (prune4_t v) acc))).
+    { apply IH; [|exact Hr]. apply Forall_aset_kv; [exact Ha | split; assumption]. }
+    destruct v; try exact Upd. cbn [prune4_go]. apply IH; [|exact Hr]. apply Forall_adel. exact Ha.
+  Qed.
+
+  Lemma prune4_t_lv t : forall d, P d t -> nlv' d (prune4_t t).
+  Proof.
+    induction t as [| | |lit|b|l IH|ms IH] using tjson_rect'; intros d H; try exact H.
+    rewrite prune4_t_obj. destruct (P_obj d ms H) as [O F]. apply nlv_doc. split; [exact O|]. split; [constructor|].
+    apply prune4_go_lv; [constructor|]. rewrite Forall_forall in IH, F. apply Forall_forall. intros kv Hin.
+    destruct (F kv Hin) as [F1 F2]. split; [exact F1 | apply (IH kv Hin); exact F2].
+  Qed.
+
+  Lemma prune4_node_lv n : forall d, nlv' d n -> nlv' d (prune4_node n).
+  Proof.
+    induction n as [|t|keys obj IH|ns IH] using node_rect'; intros d H; cbn [prune4_node]; try exact H.
+    - apply prune4_t_lv. exact H.
+    - apply nlv_doc in H as [O [Hk Ho]]. apply nlv_doc. split; [exact O|]. split; [exact Hk|].
+      unfold mlv in *. apply Forall_forall. intros kv Hin. apply filter_In in Hin as [Hin _].
+      apply in_map_iff in Hin as [kv0 [<- Hin0]]. cbn [fst snd]. rewrite Forall_forall in IH, Ho.
+      destruct (Ho kv0 Hin0) as [H1 H2]. split; [exact H1 | apply (IH kv0 Hin0); exact H2].
+  Qed.
+
+  Lemma into_doc4_lv d cur obj : nlv' d cur -> into_doc4 cur = Some obj -> okl d /\ mlv' (d - 1) obj.
+  Proof.
+    intros H E. destruct cur as [|t|k0 o0|ns]; cbn [into_doc4] in E; try discriminate.
+    - destruct t; try discriminate. assert (E' : obj = obj_of ms) by congruence. rewrite E'. apply obj_of_lv. exact H.
+    - inversion E; subst. apply nlv_doc in H as [O [_ M]]. split; assumption.
+  Qed.
+
+  Lemma merge4_loop_lv rec mm d es :
+    (forall c v, nlv' d c -> P d v -> nlv' d (rec c v)) ->
+    forall obj, Forall (fun kv => Pk (fst kv) /\ P d (snd kv)) es -> mlv' d obj -> mlv' d (merge4_loop rec mm es obj).
+  Proof.
+    intro Hrec. induction es as [|[k v] es IH]; intros obj He Ho; cbn [merge4_loop]; [exact Ho|].
+    inversion He as [|? ? [Hk1 Hv] Hr]; subst. cbn [fst snd] in *.
+    assert (SetC : forall x, nlv' d x -> mlv' d (merge4_loop rec mm es (aset k x obj))).
+    { intros x Hx. apply IH; [exact Hr|]. apply Forall_aset_kv; [exact Ho | split; assumption]. }
+    assert (New : nlv' d (if mm then NRaw v else prune4_node (NRaw v))).
+    { destruct mm; [exact Hv | rewrite prune4_node_raw; apply prune4_t_lv; exact Hv]. }
+    assert (NonNull : mlv' d (match aget k obj with
+                              | None | Some NNil => merge4_loop rec mm es (aset k (if mm then NRaw v else prune4_node (NRaw v)) obj)
+                              | Some c => merge4_loop rec mm es (aset k (rec c v) obj)
+                              end)).
+    { destruct (aget k obj) as [c|] eqn:E; [|apply SetC; exact New].
+      assert (Hc : nlv' d c).
+      { apply aget_In in E. unfold mlv in Ho. rewrite Forall_forall in Ho. apply (Ho _ E). }
+      destruct c; try (apply SetC; apply Hrec; assumption). apply SetC. exact New. }
+    destruct v; try exact NonNull.
+    destruct mm; [apply SetC; exact I | apply IH; [exact Hr | apply Forall_adel; exact Ho]].
+  Qed.
+
+  Theorem merge4_n_lv : forall fuel mm d cur p, nlv' d cur -> P d p -> nlv' d (merge4_n fuel mm cur p).
+  Proof.
+    induction fuel as [|f IH]; intros mm d cur p Hc Hp; [exact Hp|].
+    rewrite merge4_n_unfold. destruct (into_doc4 cur) as [obj|] eqn:E.
+    - destruct (into_doc4_lv d cur obj Hc E) as [O Ho].
+      destruct p; try exact Hp.
+      pose proof (patch_entries_lv P Pk okl P_obj d ms Hp) as He.
+      apply nlv_doc. split; [exact O|]. split; [constructor|].
+      apply (merge4_loop_lv (merge4_n f mm) mm (d - 1) (patch_entries ms) (fun c v => IH mm (d - 1)%N c v) obj He Ho).
+    - rewrite prune4_node_raw. apply prune4_t_lv. exact Hp.
+  Qed.
+End MergeInv4.
+
+(* the node the legacy MergePatch / MergeMergePatches encode *)
+Definition merge4_node (mm : bool) (td tp : tjson) : node :=
+  match tp with
+  | TObj pms =>
+      match td with
+      | TObj _ => merge4_n (S (tsize tp)) mm (NRaw td) tp
+      | _ => if mm then NDoc [] (obj_of pms) else prune4_node (NRaw tp)
+      end
+  | _ => NRaw tp
+  end.
+
+Lemma api_merge4_node mm doc patch td tp :
+  parse doc = Some td -> parse patch = Some tp -> td <> TNull -> scalar_text tp = false ->
+  api_merge4 mm doc patch = MOut (marshal4 (merge4_node mm td tp)).
+Proof.
+  intros Pd Pp NN Sc. unfold api_merge4. rewrite Pd, Pp.
+  destruct tp; try discriminate Sc; destruct td; try congruence; try reflexivity; destruct mm; reflexivity.
+Qed.
+
+Lemma api_merge4_out_shape mm doc patch out :
+  api_merge4 mm doc patch = MOut out ->
+  exists td tp, parse doc = Some td /\ parse patch = Some tp /\ td <> TNull /\ scalar_text tp = false.
+Proof.
+  unfold api_merge4. destruct (parse doc) as [td|]; [|discriminate]. destruct (parse patch) as [tp|]; [|discriminate].
+  intro H. exists td, tp. split; [reflexivity|]. split; [reflexivity|].
+  destruct td; try discriminate H; (split; [discriminate|]); destruct tp; try discriminate H; reflexivity.
+Qed.
+
+Lemma merge4_node_lv (P : N -> tjson -> Prop) (Pk : bytes -> Prop) (okl : N -> Prop) :
+  (forall d ms, P d (TObj ms) -> okl d /\ Forall (fun kv => Pk (unquote (fst kv)) /\ P (d - 1) (snd kv)) ms) ->
+  forall mm d td tp, P d td -> P d tp -> nlv P Pk okl d (merge4_node mm td tp).
+Proof.
+  intros PO mm d td tp Hd Hp. unfold merge4_node. destruct tp; try exact Hp.
+  assert (NonObj : nlv P Pk okl d (if mm then NDoc [] (obj_of ms) else prune4_node (NRaw (TObj ms)))).
+  { destruct mm; [|rewrite prune4_node_raw; apply (prune4_t_lv P Pk okl PO); exact Hp].
+    destruct (obj_of_lv P Pk okl PO d ms Hp) as [O M]. apply nlv_doc. split; [exact O|]. split; [constructor | exact M]. }
+  destruct td; try exact NonObj.
+  apply (merge4_n_lv P Pk okl PO); [exact Hd | exact Hp].
+Qed.
+
+(* render4: tokens and nesting *)
+Lemma tok_render4 n : ntok n -> tok (render4 n).
+Proof.
+  induction n as [|t|keys obj IH|ns IH] using node_rect'; intro N.
+  - exact I.
+  - exact N.
+  - apply ntok_doc in N. rewrite render4_doc. apply tok_obj. rewrite Forall_map. cbn [fst snd].
+    apply Forall_forall. intros kv Hin. apply In_sort4 in Hin. apply in_map_iff in Hin as [kv0 [<- Hin0]]. cbn [fst snd].
+    rewrite Forall_forall in IH, N. split; [apply body_ok_quote | apply (IH _ Hin0); apply (N _ Hin0)].
+  - apply ntok_ary in N. cbn [render4]. apply tok_arr. rewrite Forall_map. rewrite Forall_forall in *.
+    intros x Hx. apply (IH x Hx). apply (N x Hx).
+Qed.
+
+Lemma nlv_render4_depth n : forall d, nlv Pdep anykey okD d n -> (Text.tdepth (render4 n) <= d)%N.
+Proof.
+  induction n as [|t|keys obj IH|ns IH] using node_rect'; intros d H.
+  - cbn. lia.
+  - exact H.
+  - apply nlv_doc in H as [O [_ Ho]]. unfold okD in O. unfold mlv in Ho. rewrite render4_doc, tdepth_obj, maxd_map. cbn [snd].
+    assert (maxd (fun kv : bytes * tjson => Text.tdepth (snd kv)) (sort4 (map (fun kv => (fst kv, render4 (snd kv))) obj)) <= d - 1)%N; [|lia].
+    apply maxd_bound. intros kv Hin. apply In_sort4 in Hin. apply in_map_iff in Hin as [kv0 [<- Hin0]]. cbn [snd].
+    rewrite Forall_forall in IH, Ho. apply (IH _ Hin0). apply (Ho _ Hin0).
+  - apply nlv_ary in H as [O H]. unfold okD in O. cbn [render4]. rewrite tdepth_arr, maxd_map.
+    assert (maxd (fun x => Text.tdepth (render4 x)) ns <= d - 1)%N; [|lia].
+    apply maxd_bound. intros x Hx. rewrite Forall_forall in IH, H. apply (IH x Hx). apply (H x Hx).
+Qed.
+
+Theorem merge4_node_output mm td tp : twf td -> twf tp ->
+  parse (marshal4 (merge4_node mm td tp)) = Some (escape_tree true (render4 (merge4_node mm td tp))) /\
+  tok (render4 (merge4_node mm td tp)) /\ nstr (merge4_node mm td tp).
+Proof.
+  intros Wd Wp. apply twf_text in Wd as [Td Dd]. apply twf_text in Wp as [Tp Dp].
+  destruct (nlv_tok_facts _ 0%N (merge4_node_lv Ptok utf8 okT Ptok_obj mm 0%N td tp Td Tp)) as [NT NS].
+  pose proof (nlv_render4_depth _ max_depth (merge4_node_lv Pdep anykey okD Pdep_obj mm max_depth td tp Dd Dp)) as ND.
+  pose proof (tok_render4 _ NT) as TR.
+  split; [|split; assumption]. unfold marshal4. apply parse_print_any. apply twf_text. split; assumption.
+Qed.
+
+(* every successful legacy MergePatch / MergeMergePatches call returns a JSON text *)
+Theorem api_merge4_output_general mm doc patch out :
+  api_merge4 mm doc patch = MOut out -> exists t', parse out = Some t' /\ valid_gen out = true.
+Proof.
+  intro H. destruct (api_merge4_out_shape mm doc patch out H) as [td [tp [Pd [Pp [NN Sc]]]]].
+  rewrite (api_merge4_node mm doc patch td tp Pd Pp NN Sc) in H. inversion H; subst.
+  destruct (merge4_node_output mm td tp (parse_twf _ _ Pd) (parse_twf _ _ Pp)) as [O _].
+  eexists. split; [exact O | apply valid_gen_iff_parse; eauto].
+Qed.
+
+Print Assumptions api_merge4_output_general.
+
+Lemma nstr_nku n : nstr n -> nku n.
+Proof.
+  induction n as [|t|keys obj IH|ns IH] using node_rect'; intro H.
+  - exact I.
+  - exact H.
+  - apply nstr_doc in H as [_ H]. apply nku_doc. unfold nodes_ku. rewrite Forall_forall in *. intros kv Hin.
+    destruct (H kv Hin) as [H1 H2]. split; [exact H1 | apply (IH kv Hin); exact H2].
+  - apply nstr_ary in H. apply nku_ary. rewrite Forall_forall in *. intros x Hx. apply (IH x Hx), H, Hx.
+Qed.
+
+Lemma merge4_node_spec td tp :
+  td <> TNull -> tnodup td = true -> tnodup tp = true -> scalar_text tp = false ->
+  nwf4 (merge4_node false td tp) /\ aval4 (merge4_node false td tp) = merge_patch (den td) (den tp).
+Proof.
+  intros NN Td Tp Sc. unfold merge4_node. destruct tp; try discriminate Sc.
+  - split; [exact Tp | reflexivity].
+  - destruct td; try congruence;
+      try (rewrite prune4_node_raw; destruct (prune4_t_spec (TObj ms) Tp) as [S1 S2]; split; [exact S2|]; rewrite S1;
+           apply merge_patch_target_irrelevant; reflexivity).
+    destruct (merge4_n_spec (S (tsize (TObj ms))) (TObj ms) (NRaw (TObj ms0))) as [S1 S2]; [lia | exact Tp | exact Td|].
+    split; [exact S2 | exact S1].
+Qed.
+
+Lemma merge4_node_mm_spec ms1 t2 :
+  tnodup (TObj ms1) = true -> tnodup t2 = true -> compatible (den (TObj ms1)) (den t2) = true -> scalar_text t2 = false ->
+  nwf4 (merge4_node true (TObj ms1) t2) /\ aval4 (merge4_node true (TObj ms1) t2) = mm (den (TObj ms1)) (den t2).
+Proof.
+  intros T1 T2 C Sc. unfold merge4_node. destruct t2; try discriminate Sc.
+  - split; [exact T2 | reflexivity].
+  - assert (G : aval4 (merge4_n (S (tsize (TObj ms))) true (NRaw (TObj ms1)) (TObj ms)) = mm (aval4 (NRaw (TObj ms1))) (den (TObj ms)) /\
+                nwf4 (merge4_n (S (tsize (TObj ms))) true (NRaw (TObj ms1)) (TObj ms)) /\
+                nclean (merge4_n (S (tsize (TObj ms))) true (NRaw (TObj ms1)) (TObj ms)) = true)
+      by (apply merge4_n_mm_spec; auto; try lia; try discriminate).
+    destruct G as [G1 [G2 _]]. split; [exact G2 | exact G1].
+Qed.
+
+(* legacy MergePatch (object or array patch): the bytes returned are a JSON text whose value is RFC
+   7396's MergePatch(document, patch), up to the order of members (the legacy encoder sorts them) *)
+Theorem api_merge4_output_bytes doc patch td tp :
+  parse doc = Some td -> parse patch = Some tp -> td <> TNull -> tnodup td = true -> tnodup tp = true ->
+  scalar_text tp = false ->
+  exists out t', api_merge4 false doc patch = MOut out /\ parse out = Some t' /\
+                 jeq (den t') (merge_patch (den td) (den tp)) = true /\ valid_gen out = true.
+Proof.
+  intros Pd Pp NN Td Tp Sc.
+  destruct (merge4_node_spec td tp NN Td Tp Sc) as [W V].
+  destruct (merge4_node_output false td tp (parse_twf _ _ Pd) (parse_twf _ _ Pp)) as [O [TR NS]].
+  destruct (render4_den _ W (nstr_nku _ NS)) as [_ J].
+  exists (marshal4 (merge4_node false td tp)), (escape_tree true (render4 (merge4_node false td tp))).
+  split; [eapply api_merge4_node; eauto|]. split; [exact O|]. split.
+  - rewrite escape_tree_den by (apply tok_tsb; exact TR). rewrite <- V. exact J.
+  - apply valid_gen_iff_parse. eauto.
+Qed.
+
+Theorem api_mergemerge4_output_bytes p1 p2 ms1 t2 :
+  parse p1 = Some (TObj ms1) -> parse p2 = Some t2 -> tnodup (TObj ms1) = true -> tnodup t2 = true ->
+  compatible (den (TObj ms1)) (den t2) = true -> scalar_text t2 = false ->
+  exists out t', api_merge4 true p1 p2 = MOut out /\ parse out = Some t' /\
+                 jeq (den t') (mm (den (TObj ms1)) (den t2)) = true /\ valid_gen out = true.
+Proof.
+  intros P1 P2 T1 T2 C Sc.
+  destruct (merge4_node_mm_spec ms1 t2 T1 T2 C Sc) as [W V].
+  destruct (merge4_node_output true (TObj ms1) t2 (parse_twf _ _ P1) (parse_twf _ _ P2)) as [O [TR NS]].
+  destruct (render4_den _ W (nstr_nku _ NS)) as [_ J].
+  exists (marshal4 (merge4_node true (TObj ms1) t2)), (escape_tree true (render4 (merge4_node true (TObj ms1) t2))).
+  split; [eapply api_merge4_node; eauto; discriminate|]. split; [exact O|]. split.
+  - rewrite escape_tree_den by (apply tok_tsb; exact TR). rewrite <- V. exact J.
+  - apply valid_gen_iff_parse. eauto.
+Qed.
+
+Print Assumptions api_merge4_output_bytes.
+Print Assumptions api_mergemerge4_output_bytes.
+
+(* ================================================================================================ *)
+(* 12. the codec's Compact / Indent (C17): the output is a JSON text with the same value             *)
+(* ================================================================================================ *)
+Lemma skip_ws_nil_wsb r : skip_ws r = [] -> wsb r = true.
+Proof.
+  induction r as [|c r IH]; [reflexivity|]. cbn [skip_ws wsb forallb]. destruct (is_ws c) eqn:E; [|discriminate].
+  intro H. cbn [andb]. apply IH. exact H.
+Qed.
+
+(* Compact, with or without escaping: accepted exactly on well-formed texts; the result is read back
+   as the (escaped) tree of the input, which denotes the same value *)
+Theorem compact_output_value esc bs out : compact_go esc bs = Some out ->
+  exists t, parse bs = Some t /\ parse out = Some (escape_tree esc t) /\ den (escape_tree esc t) = den t /\
+            valid_gen out = true.
+Proof.
+  rewrite compact_go_spec. destruct (parse bs) as [t|] eqn:Pb; [|discriminate]. intro H; inversion H; subst.
+  pose proof (parse_twf _ _ Pb) as W. exists t. split; [reflexivity|].
+  assert (Pp : parse (print esc t) = Some (escape_tree esc t)) by (apply parse_print_any; exact W).
+  split; [exact Pp|]. split; [apply escape_den; apply tok_tsb; apply W | apply valid_gen_iff_parse; eauto].
+Qed.
+
+(* Indent with an indentation made of white space: the result is read back as the tree of the input *)
+Theorem indent_output_value ind bs out : wsb ind = true -> indent_go ind bs = Some out ->
+  exists t, parse bs = Some t /\ parse out = Some t /\ valid_gen out = true.
+Proof.
+  intros W H. destruct (proj1 (indent_accepts_iff_parse ind bs) (ex_intro _ out H)) as [t Pb].
+  destruct (indent_go_parse ind bs t Pb) as [rest [_ [Wr G]]]. rewrite G in H. inversion H; subst.
+  destruct (parse_twf _ _ Pb) as [T D]. exists t. split; [exact Pb|].
+  assert (Pp : parse (pp false ind 0 t ++ rest) = Some t).
+  { apply (parse_of_reads (pp false ind 0 t) t [] rest); [apply pp_reads; assumption | exact D | reflexivity | apply skip_ws_nil_wsb; exact Wr]. }
+  split; [exact Pp | apply valid_gen_iff_parse; eauto].
+Qed.
+
+Print Assumptions compact_output_value.
+Print Assumptions indent_output_value.
